@@ -16,7 +16,8 @@ Contents
    `K_ind_4_inverts_TRIL`, `eri_bra_ket_symmetry`, `eri_pair_symmetry`.
 4. `two_center_G_linear`, `G_linear`, `two_center_eq_textbook`, `two_center_G_symmetric`, `G_self_adjoint`.
 5. `one_center_factors_published`, `oneCenterERI_symmetry`.
-6. `rho_residual_characterisation`, `rho1_residual_strictAnti`, `rho1_unique`.
+6. `rho_residual_characterisation`, `rho1_residual_strictAnti`, `rho1_unique`, `rho2_residual_strictAnti`,
+   `rho2_unique`.
 -/
 namespace C06
 open NDDO Generated.FockTables Finset
@@ -740,6 +741,62 @@ theorem rho2_unique {ev hpp_ev D ρ ρ' : ℝ} (hD : D ≠ 0) (h : 0 < ρ) (h' :
     ρ = ρ' := by
   have hs := rho2_residual_strictAnti (ev := ev) hpp_ev hD
   exact hs.injOn (Set.mem_Ioi.mpr h) (Set.mem_Ioi.mpr h') (by simp only [hr, hr'])
+
+
+
+
+/-! ## non-vacuity: concrete evaluations -/
+
+/-- (ss|ss) at `R = 3`, `ρ0a = ρ0b = 2`, `ev = 5`: `5/√(9+16) = 1` -/
+example : riC 5 3 1 1 1 1 2 2 1 1 1 1 0 = 1 := by
+  rw [(ri_ss_ss_is_ko 5 3 1 1 1 1 2 2 1 1 1 1).2]
+  rw [show (3:ℝ) ^ 2 + (2 + 2) ^ 2 = 5 ^ 2 by norm_num, Real.sqrt_sq (by norm_num)]; norm_num
+
+/-- (sσ|ss) at `R = 4`, `D₁ = 1`, `ρ1a+ρ0b = 0`: `½(1/5 − 1/3)·ev`, negative (z axis points B → A) -/
+example : riC 30 4 1 0 0 0 0 0 0 0 0 0 1 = -2 := by
+  have h : riC 30 4 1 0 0 0 0 0 0 0 0 0 1 = 30 * (1 / 2 * (1 / Real.sqrt (5 ^ 2)) - 1 / 2 * (1 / Real.sqrt (3 ^ 2))) := by
+    have e : ∀ f : ℝ → ℝ, (riHH f 30 4 1 0 0 0 0 0 0 0 0 0).getD 1 0 = 30 * (1 / 2 * (1 / f (5 ^ 2)) - 1 / 2 * (1 / f (3 ^ 2))) := by
+      intro f; nddo_ring
+    exact e Real.sqrt
+  rw [h, Real.sqrt_sq (by norm_num), Real.sqrt_sq (by norm_num)]; norm_num
+
+example : ko Real.sqrt 1 3 4 = 1 / 5 ∧ 0 < ko Real.sqrt 1 3 4 ∧ ko Real.sqrt 1 3 4 < 1 / 3 :=
+  ⟨by rw [ko_eq, show (3:ℝ) ^ 2 + 4 ^ 2 = 5 ^ 2 by norm_num, Real.sqrt_sq (by norm_num)],
+   ko_positive (by norm_num) (Or.inl (by norm_num)), ko_lt_coulomb (by norm_num) (by norm_num) (by norm_num)⟩
+
+/-- a concrete symmetric density block -/
+def Pex : Blk ℝ := fun i j => (i : ℝ) + j + i * j
+theorem Pex_symm : BSymm Pex := by intro i j; simp only [Pex]; ring
+
+example : oneCenterFock 12 11 10 9 3 Pex 0 0 = 0 * 12 / 2 + (3 + 8 + 15) * (11 - 3 / 2) := by
+  rw [(one_center_entries 12 11 10 9 3 Pex).1]; norm_num [Pex]
+
+example : oneCenterFock 12 11 10 9 3 Pex 2 1
+    = ∑ l ∈ range 4, ∑ s ∈ range 4, Pex l s *
+        (oneCenterERI 12 11 10 9 3 2 1 l s - 1 / 2 * oneCenterERI 12 11 10 9 3 2 l 1 s) :=
+  one_center_factors_published 12 11 10 9 3 Pex Pex_symm 2 (by norm_num) 1 (by norm_num)
+
+/-- the exchange block of a concrete pair: `w[t,k] = t + 10 k`, `P_AB = Pex` -/
+example : (twoCenterJK (fun t k => (t : ℝ) + 10 * k) Pex Pex Pex).fAB 0 0 = -1705 := by
+  simp only [twoCenterJK, kSum, sumTo]
+  norm_num [kind, K_ind_4, Pex]
+
+/-- hypotheses of `G_self_adjoint` are satisfiable with non-trivial blocks -/
+example : matDot ⟨Pex, Pex, fun i j => (i : ℝ) - 2 * j⟩
+      (gTwoAtoms ⟨12, 11, 10, 9, 3⟩ ⟨13, 12, 11, 10, 4⟩ (fun t k => (t : ℝ) + 10 * k) ⟨Pex, Pex, Pex⟩)
+    = matDot ⟨Pex, Pex, Pex⟩
+      (gTwoAtoms ⟨12, 11, 10, 9, 3⟩ ⟨13, 12, 11, 10, 4⟩ (fun t k => (t : ℝ) + 10 * k) ⟨Pex, Pex, fun i j => (i : ℝ) - 2 * j⟩) :=
+  G_self_adjoint _ _ _ _ _ Pex_symm Pex_symm Pex_symm Pex_symm
+
+/-- a positive `h_pp` whose additive term is `ρ₂ = 1` for `D₂ = 1` exists (residual root) -/
+example : ∃ hpp_ev : ℝ, 0 < hpp_ev ∧ rho2Residual Real.sqrt 1 hpp_ev 1 1 = 0 := by
+  refine ⟨hppOfQ Real.sqrt 1 (0.5 / 1), ?_, by simp [rho2Residual]⟩
+  rw [hppOfQ_of_rho (by norm_num), h2_eq_F3 (by norm_num)]
+  have : 0 < F3 1 (Real.sqrt (1 ^ 2 + 1 ^ 2)) (Real.sqrt (2 * 1 ^ 2 + 1 ^ 2)) := by
+    have h1 : 0 < Real.sqrt (1 ^ 2 + 1 ^ 2) := Real.sqrt_pos.mpr (by norm_num)
+    have h2 : 0 < Real.sqrt (2 * 1 ^ 2 + 1 ^ 2) := Real.sqrt_pos.mpr (by norm_num)
+    unfold F3; positivity
+  positivity
 
 
 end C06
